@@ -134,6 +134,7 @@ func readParagraphs(p *Prog, text string) ([]*refPara, string) {
 func normValue(v string) string { return strings.TrimSuffix(v, "\n") }
 
 func checkC08(p *Prog, rp *Report) {
+	defer stateRule(p, rp, "C08-STATE", p.Method("control", "Paragraph", "WriteTo"), p.Method("control", "ParagraphReader", "Next"), p.Func("control", "NewEncoder"), p.Method("control", "Encoder", "Encode"))
 	rp.Explanation = "C08-ROUND: (*Paragraph).WriteTo and (*ParagraphReader).Next are both interpreted abstractly (writer = recording oracle, reader = scripted oracle fed with exactly the text written): for every paragraph of two fields whose values are all sequences of up to 4 lines drawn from {text, empty, indented, blank-only, text with trailing blanks, a lone dot, text starting with '#'}, with and without a trailing newline, the text written reads back as one paragraph with the same fields in order and the same values up to one trailing newline, and a second write/read cycle changes nothing. C08-NOBLANK: on the same table no written line other than the last is empty or white-space only, and the text ends in exactly one newline. C08-RWR: documents as the reader sees them (repeated fields, a field repeated after an empty occurrence, comments, folded values, padding) are read, each paragraph written and read again: same fields, same order, same values. C08-SEP: the encoder writes one blank line before every paragraph but the first; the flag it keeps lives behind pointer receivers on the whole call chain Encode -> encode -> encodeSlice/encodeStruct. an all-empty struct encoded between two others (through NewEncoder / Encode and the reflect model) leaves them two paragraphs. C08-ORDER: the writer walks Order and looks values up by key; no function of package control ranges over a map in an order dependent way."
 	rp.NotDecided = "values whose first line is empty and that have further lines are outside the reader's value space except as produced by ' .' (see the known finding); Unicode line separators; io.Writer short writes."
 	rp.Trusted = []string{"go/types, go/ssa", "strings.Split/Join/TrimSuffix/TrimSpace, fmt.Sprintf models", "C07 (the reader agrees with the deb822 reference)"}
@@ -163,6 +164,9 @@ func checkC08(p *Prog, rp *Report) {
 	}
 	gen(nil, 3)
 	values = append(values, "", "a\n\n\n\nb", "a\n\n\n\nb\n", "x\n\n\n", "l1\nl2\nl3\nl4\nl5\n")
+	// physical lines longer than a reader buffer (4096 bytes): first line, continuation line, both
+	big := strings.Repeat("lib-x (>= 1.0), ", 300)
+	values = append(values, big, "short\n"+big+"\nlast", big+"\n"+big)
 	sort.Strings(values)
 	n := 0
 	var roundBad, blankBad, undec string
